@@ -120,6 +120,23 @@ pub fn mutants<B: Backend>(purpose: Purp, tok: &str, msg_len: usize, aad: &[u8],
         // swap footer and assertion
         push("footer-aad-swapped", &body, aad, &footer);
     }
+    // 2b. the assertion / footer padded with (or stripped of) white space: a lenient comparison treats them alike
+    for ws in [&b" "[..], b"\n", b"\t", b"\r\n", b"\x0c"] {
+        if B::HAS_AAD {
+            push("aad-whitespace", &body, &footer, &[aad, ws].concat());
+            push("aad-whitespace", &body, &footer, &[ws, aad].concat());
+        }
+        push("footer-whitespace", &body, &[&footer[..], ws].concat(), aad);
+        push("footer-whitespace", &body, &[ws, &footer[..]].concat(), aad);
+    }
+    if aad.trim_ascii() != aad {
+        push("aad-whitespace", &body, &footer, aad.trim_ascii());
+        push("aad-whitespace", &body, &footer, aad.trim_ascii_start());
+        push("aad-whitespace", &body, &footer, aad.trim_ascii_end());
+    }
+    if footer.trim_ascii() != &footer[..] {
+        push("footer-whitespace", &body, footer.trim_ascii(), aad);
+    }
     // 3. boundary shifts keeping the concatenation identical
     let (pre, tail) = match purpose {
         Purp::Local => (B::LOCAL_NONCE, B::LOCAL_TAG),
@@ -239,7 +256,10 @@ fn backend<B: Backend>(opts: &Opts, rep: &mut Report) {
         let mut positive = 0;
         for &len in sizes {
             for (fi, footer) in [&b""[..], &b"ftr:\x00.data"[..]].iter().enumerate() {
-                for aad in if B::HAS_AAD { vec![&b""[..], &b"assert!"[..]] } else { vec![&b""[..]] } {
+                for aad in if B::HAS_AAD { vec![&b""[..], &b"assert!"[..], &b" padded assertion\n"[..]] } else { vec![&b""[..]] } {
+                    if aad.starts_with(b" ") && !(len == 17 && fi == 0) {
+                        continue; // the padded assertion on one token shape only
+                    }
                     // keep the quick tier bounded: full footer/aad grid on two payload sizes only
                     if !opts.thorough() && (len == 0 || len == 64) && fi == 1 && !aad.is_empty() {
                         continue;
@@ -310,6 +330,9 @@ fn backend<B: Backend>(opts: &Opts, rep: &mut Report) {
                         // versions without implicit assertions must refuse a non-empty one
                         if !B::HAS_AAD {
                             expect_err::<B>(rep, &kp, "aad-on-v1v2-unseal", &tok, b"assertion", "non-empty assertion at unseal");
+                            for ws in [&b" "[..], b"\n", b"\t \r\n"] {
+                                expect_err::<B>(rep, &kp, "aad-on-v1v2-unseal", &tok, ws, "white-space-only assertion at unseal");
+                            }
                             let class = "aad-on-v1v2-seal";
                             match guard(|| kp.seal(&msg, footer, b"assertion")) {
                                 Ok(Err(e)) => rep.count(&format!("err.{}", err_kind(&e))),
@@ -636,7 +659,7 @@ pub fn run(opts: &Opts) {
     pairs!(V1 => V3Lc, V3Lc => V1, V2 => V4Na, V4Na => V2, V3Lc => V4Na, V4Na => V3Lc, V3 => V4Na, V4 => V3Lc, V3Lc => V4, V4Na => V3, V3Lc => V2, V4Na => V1);
     rep.set(
         "rule",
-        json!("fault enumeration: for sealed tokens (payload 0/1/17/64 B x footer x assertion) every single-bit flip of every body/footer/assertion byte, footer/assertion add/remove/replace/swap, boundary shifts of 1..8 bytes between message, footer and assertion, every truncation, extensions, further dot-separated segments after the footer, doubled tokens and white space / invisible characters around the token (these also through the serde Deserialize entry point), header relabels, other keys, for local keys a one-bit-different key per key byte (public: key pairs of one-bit-different secrets), each tried immediately after the right key has opened the token on the same thread; a case is (mutated token, assertion, key) and is non-trivial when it differs from what was sealed; distinct = distinct such triples"),
+        json!("fault enumeration: for sealed tokens (payload 0/1/17/64 B x footer x assertion) every single-bit flip of every body/footer/assertion byte, footer/assertion add/remove/replace/swap and padding with white space, boundary shifts of 1..8 bytes between message, footer and assertion, every truncation, extensions, further dot-separated segments after the footer, doubled tokens and white space / invisible characters around the token (these also through the serde Deserialize entry point), header relabels, other keys, for local keys a one-bit-different key per key byte (public: key pairs of one-bit-different secrets), each tried immediately after the right key has opened the token on the same thread; a case is (mutated token, assertion, key) and is non-trivial when it differs from what was sealed; distinct = distinct such triples"),
     );
     rep.finish(opts);
 }
